@@ -48,7 +48,6 @@ pub fn c12_witness<L: KeyboardLayout, W: AsciiWitness>(name: &str, l: &L) {
         crate::show!("C12 {} char={:?} ({:#04x}) mode={:?}: no key at base/shift/altgr level types it", name, c as char, c, h);
         assert!(exists_direct(l, h, c), "C12: printable ASCII character cannot be typed on this layout");
     }
-    kani::cover!(lvl == 2);
     kani::cover!(true);
 }
 
